@@ -234,6 +234,29 @@ def run(ctx, rep):
         upd = [bb for bb, t, cal, c in b.calls() if cal and cal.endswith("Controller::<C>::update")]
         rep.check(len(upd) == 1 and b.on_cycle(upd[0]), "R5.4", "R5.4|single_consumer", "one consumer applies the updates sequentially", cr)
 
+    # ---------- R5.5 messages of different producers never share a sort key
+    # The error list is ordered by the leading offset only (stable): two messages with the same offset keep their
+    # arrival order, which is deterministic only when both come from the same thread.  Validators report at a packet's
+    # RDH offset or inside its payload; the reader's own messages (payload cut short / skip past the end) must therefore
+    # not be positioned at a delivered packet: on every path to such a report the tracker has already been advanced
+    # past the packet (the position after its end is used by no validator message).  [This is the flip side of the
+    # recorded finding F9: repairing F9 needs a tie-break in the sort, and this rule replaced by it.]
+    from . import c03
+    from ..mir import Body as _Body, inline_fn as _inline
+    lc = c03.SCAN + "load_cdp"
+    if lc in f.fns:
+        rp_ = [p_ for p_ in f.fns if p_.endswith("InputScanner::<R>::report")]
+        bi = _Body(_inline(f, lc, lambda c: (c.startswith(c03.AP + "input_scanner::InputScanner::<R>::") and not c.endswith("::report")), max_depth=3, max_blocks=2000))
+        reps = [bb for bb, t, cal, c in bi.calls() if rp_ and cal == rp_[0]]
+        adv = [bb for bb, t, cal, c in bi.calls() if cal in (c03.TRK + "::next", c03.TRK + "::update_mem_address")]
+        bad = [bb for bb in reps if not bi.all_paths_pass(0, adv, to=[bb])]
+        rep.check(bool(reps) and bool(adv) and not bad, "R5.5", "R5.5|reader_messages_after_packet",
+                  "the reader's own error messages (%d site(s)) are positioned after the tracker moved past the packet — never at an offset a validator reports at" % len(reps), lc,
+                  "%d of %d reader message(s) in load_cdp can be emitted before the position tracker was advanced past the packet: the message then carries the packet's own offset, "
+                  "the same sort key as the validators' messages for that packet, and their relative order depends on thread scheduling" % (len(bad), len(reps)))
+    else:
+        rep.missing("R5.5", lc)
+
 
 def _sum_only(f, ev, path):
     """violations of 'only field-wise +=' inside a sum() function (recursing into nested sum calls)"""
